@@ -4,6 +4,7 @@ import (
 	"fmt"
 	"os"
 	"path/filepath"
+	"sync"
 	"sync/atomic"
 
 	badgerdb "github.com/dgraph-io/badger/v4"
@@ -22,17 +23,18 @@ const (
 
 var scratchRoot string
 var scratchSeq int64
+var scratchOnce sync.Once
 
 // ScratchRoot returns (creating it once) the per-process scratch directory, on tmpfs when available.
 func ScratchRoot() string {
-	if scratchRoot == "" {
+	scratchOnce.Do(func() {
 		base := "/dev/shm"
 		if st, err := os.Stat(base); err != nil || !st.IsDir() {
 			base = os.TempDir()
 		}
 		scratchRoot = filepath.Join(base, fmt.Sprintf("verif-%d", os.Getpid()))
 		os.MkdirAll(scratchRoot, 0o755)
-	}
+	})
 	return scratchRoot
 }
 
@@ -52,7 +54,7 @@ func NewScratchDir() string {
 func BadgerOptions(dir string) badgerdb.Options {
 	o := badgerdb.DefaultOptions(dir).
 		WithLoggingLevel(badgerdb.ERROR).
-		WithMemTableSize(1 << 20).
+		WithMemTableSize(8 << 20).
 		WithValueThreshold(1 << 10).
 		WithNumCompactors(2).
 		WithBlockCacheSize(0).
